@@ -120,6 +120,9 @@ printf("(%d) psgstrf_column_bmod[1]: %d, nseg %d, krep %d, jsupno %d, ksupno %d\
 
 	    fsupc = xsup[ksupno];
 	    fst_col = SUPERLU_MAX ( fsupc, fpanelc );
+#ifdef SLU_MT_VERIF
+	    SLU_MT_VERIF_EVENT(SLUV_UPDATE_COL, pnum, jcol, krep, fsupc, pxgstrf_shared);
+#endif
 
   	    /* Distance from the current supernode to the current panel; 
 	       d_fsupc=0 if fsupc >= fpanelc. */
